@@ -75,6 +75,10 @@ fn main() {
         "replay" => replay(&args[2..]),
         "selftest" => selftest(),
         "table16" => props::c16::table_dump_main(parse_tier(args.get(2).map(|s| s.as_str()).unwrap_or("quick")), args.get(3).and_then(|s| s.parse().ok()).unwrap_or(0), args.get(4).map(|s| s.as_str()).unwrap_or("/verif/.target/tmp/table16.txt")),
+        "exp17" => {
+            outcome::install_quiet_panic_hook();
+            props::c17::exp_bfs(args.get(2).map(|s| s.as_str()).unwrap_or(""), args.get(3).and_then(|s| s.parse().ok()).unwrap_or(6))
+        }
         "solo16" => props::c16::solo_main(args.get(2).and_then(|s| s.parse().ok()).unwrap_or(0)),
         _ => usage(),
     }
@@ -141,7 +145,16 @@ fn replay(a: &[String]) {
         sh.verbose = true;
         sh.known.clear();
         println!("replaying {} case (recorded detail: {})", id, v["detail"]);
-        (p.replay)(&mut sh, &v["case"]);
+        if v["case"]["ladder"].is_object() {
+            // a size-ladder rung: the file keeps the recipe (family, m), not the text
+            sh.mine();
+            if !ladders::replay(&mut sh, "replay", &v["case"]) {
+                eprintln!("no ladder rung matches the recorded family and size");
+                std::process::exit(2);
+            }
+        } else {
+            (p.replay)(&mut sh, &v["case"]);
+        }
         if sh.violations.is_empty() {
             println!("replay: the property HOLDS on this case now");
             std::process::exit(0);
